@@ -48,32 +48,44 @@ def ascending : List (Version × Str) → Bool
   | [_] => true
   | a :: b :: t => decide (a.1 < b.1) && ascending (b :: t)
 
+/-- The path every other path's arguments are compared with: the first unstable path, else the
+first stable one (`None`: "No paths supplied"). -/
+def refPath (h : VersionHistory) : Option Str :=
+  match h.unstable.head?, h.stable.head? with
+  | some s, _ => some s
+  | none, some e => some e.2
+  | none, none => none
+
+/-- `check_path_is_valid` and `check_path_args_equal(ref_path, _)` for every path. -/
+def pathsOk (h : VersionHistory) (r : Str) : Bool :=
+  h.unstable.all (fun p => pathValid p && pathArgNames r == pathArgNames p)
+  && h.stable.all (fun e => pathValid e.2 && pathArgNames r == pathArgNames e.2)
+
+/-- The `deprecated` block: needs a stable path; not older than the newest stable path; equal to
+it only for the legacy version 1.0. -/
+def deprecatedOk (h : VersionHistory) : Bool :=
+  match h.deprecated with
+  | none => true
+  | some d =>
+    match h.stable.getLast? with
+    | none => false
+    | some l => !(d != 0 && l.1 == d) && !(decide (d < l.1))
+
+/-- The `removed` block: needs `deprecated`, strictly later. -/
+def removedOk (h : VersionHistory) : Bool :=
+  match h.removed with
+  | none => true
+  | some r =>
+    match h.deprecated with
+    | none => false
+    | some d => decide (d < r)
+
 /-- `VersionHistory::new` returns instead of panicking (it is a `const fn`, so for the endpoint
 constants this is checked at compile time). -/
 def newOk (h : VersionHistory) : Bool :=
-  let refPath : Option Str :=
-    match h.unstable.head?, h.stable.head? with
-    | some s, _ => some s
-    | none, some e => some e.2
-    | none, none => none
-  match refPath with
-  | none => false                                            -- "No paths supplied"
-  | some r =>
-    h.unstable.all (fun p => pathValid p && pathArgNames r == pathArgNames p)
-    && h.stable.all (fun e => pathValid e.2 && pathArgNames r == pathArgNames e.2)
-    && ascending h.stable
-    && (match h.deprecated with
-        | none => true
-        | some d =>
-          match h.stable.getLast? with
-          | none => false                                    -- deprecated without a stable path
-          | some l => !(d != 0 && l.1 == d) && !(decide (d < l.1)))
-    && (match h.removed with
-        | none => true
-        | some r =>
-          match h.deprecated with
-          | none => false                                    -- removed without deprecated
-          | some d => decide (d < r))
+  match refPath h with
+  | none => false
+  | some r => pathsOk h r && ascending h.stable && deprecatedOk h && removedOk h
 
 /-- `VersioningDecision`. -/
 inductive Decision where
